@@ -250,6 +250,7 @@ def locality_worker(part, L):
 def count_worker(part, _):
     from chmpy.shape.shape_descriptors import make_invariants
 
+    asc = {}
     for L in range(0, 27):
         n = (L + 1) ** 2
         for kinds in ("N", "P", "NP"):
@@ -281,6 +282,19 @@ def count_worker(part, _):
                 if np.abs(first[:L + 1] - Nn).max() > 1e-9 * Nn.max():
                     part.fail("N-block-first", "the first L+1 entries of the NP vector are not the per-degree norms (L=%d)" % L, {"kind": "count"})
             part.outcome(("count", kinds))
+            asc[(L, kinds)] = first
+    # the same calls again in DESCENDING order of L: number, order and values are a function of (L, coefficients) alone, not of
+    # which degrees were asked for earlier in the process
+    for L in range(26, -1, -1):
+        n = (L + 1) ** 2
+        k = np.arange(n)
+        c = np.ascontiguousarray((np.sin(1.0 + 1.7 * k) + 0.3) + 1j * np.cos(0.3 + 2.3 * k))
+        for kinds in ("N", "P", "NP"):
+            part.ev()
+            inv = make_invariants(L, c, kinds=kinds)
+            if inv.shape != asc[(L, kinds)].shape or not np.array_equal(inv, asc[(L, kinds)], equal_nan=True):
+                part.fail("count-history:%s" % kinds, "L=%d kinds=%s: %d invariants after the degrees %d..%d had been requested, %d when only lower degrees had been"
+                          % (L, kinds, len(inv), L + 1, 26, len(asc[(L, kinds)])), {"kind": "count"})
     part.nstates(27)
 
 
